@@ -70,34 +70,59 @@ Theorem affects_precise_nilkey_refuted :
     affects_query_v0 q b a = true /\ affects_query q b a = false.
 Proof. exact affects_precise_nilkey_refuted_pf. Qed.
 
-(* handler layer (store/querystorehandler.go), PARTIAL.  A client subscribed to
-   resource rid with client query cq (ordinary or query resource, with or
-   without path parameters / AffectedResources), holding the result of a fresh
-   get before the change, holds the result of a fresh get after the handler
-   reacted to it: it is reset / answered with the new result whenever its
-   result differs, and left alone only if it does not.
-   Gaps (not proved): the gateway's re-fetch / query request is assumed to be
-   served before the next index task (d_now = d'); AffectedResources is assumed
-   to announce rid whenever the resource's query is affected and the
-   (Query)RequestHandlers of announced resources not to fail (user code);
-   QueryTransformer is the identity; what the gateway does with the new result
-   (diffing into events for its clients) is outside go-res. *)
-Theorem handler_coherent_partial : forall {V} (idxs : list (index V)) (h : hconfig V) s d id a rid cq q,
-  names_ok idxs -> index_state idxs s d -> nul_free id = true ->
-  let b := st_get id s in
-  let c := (id, b, a) in
-  let s' := st_put id a s in
-  let d' := fst (update_idxs idxs id b a d false) in
-  h_rh h rid cq = Some q -> In (qidx q) idxs ->
-  (h_isquery h = false -> cq = []) ->
-  (affects_query q b a = true -> mem rid (announced h c) = true) ->
-  (h_isquery h = false -> forall r, In r (announced h c) -> h_rh h r [] <> None) ->
-  entries_nul_free (entries_of (qidx q) s) = true ->
-  entries_nul_free (entries_of (qidx q) s') = true ->
-  (qrev q = true -> db_bytes_ok d = true /\ db_bytes_ok d' = true) ->
-  ((qlimit q < 0)%Z -> (Z.of_nat (length d) < max_int)%Z /\ (Z.of_nat (length d') < max_int)%Z) ->
-  client_after idxs h d' c rid cq (fetch_collection d q) = fetch_collection d' q.
-Proof. intros V. exact handler_coherent_partial_pf. Qed.
+(* handler layer (store/querystorehandler.go on badgerstore's QueryStore).
+   A client subscribed to resource rid with client query cq - ordinary or query
+   resource, with or without path parameters / AffectedResources, with any of
+   the QueryTransformers - holds a fresh get before a sequence of changes and
+   processes, for every change in order, what the handler publishes for it:
+   system.reset of its resource => it re-fetches; a query event => it sends a
+   query request and takes the answer (new collection / model, or nothing).
+   Each of these conversations is served at SOME index state between its
+   change and the end of the sequence (any number of further mutations may be
+   indexed before the gateway is answered; [client_run] quantifies over all
+   such schedules).  Then after the last conversation the client holds exactly
+   a fresh get.  Hypotheses about user code only: AffectedResources announces
+   the resource whenever the change affects its query; every announced resource
+   exists and its RequestHandler returns a query; the subscription itself
+   resolves to a query of an existing index ([sub_query]); plus the C13 side
+   conditions at every state ([data_ok]: NUL-free keys, real bytes for Reverse). *)
+Theorem handler_coherent : forall {V} (idxs : list (index V)) (h : qhandler (change V) (iquery V))
+    (rid cq : bytes) (q : iquery V) (cs : list (change V)) s d w',
+  names_ok idxs -> sub_query h rid cq = Some q -> In (qidx q) idxs ->
+  index_state idxs s d -> chain_ok s cs ->
+  (forall c, In c cs -> affects_query q (snd (fst c)) (snd c) = true -> memb rid (announced h c) = true) ->
+  (forall c, In c cs -> forall r, In r (announced h c) ->
+     h_resource h r = true /\ (is_query h = false -> plain_query h r <> None)) ->
+  (forall pre post, cs = pre ++ post -> data_ok q (fold_left apply_change pre s) (index_after idxs d pre)) ->
+  client_run idxs h rid cq d cs (fresh_get h d rid cq) w' ->
+  w' = fresh_get h (index_after idxs d cs) rid cq.
+Proof. intros V. exact handler_coherent_pf. Qed.
+
+(* The handler with ANY QueryStore (one whose Events answers with add / remove
+   events, or with reset) and any of the transformers (none,
+   IDToRIDCollectionTransformer, IDToRIDModelTransformer): the conversation of
+   one change, served before the next change, leaves the client with the
+   content of a fresh get (models compared as finite maps).  Store hypotheses:
+   when Events does not ask for a reset its events turn the old id list into
+   the new one (and the lists are duplicate-free for the model transformer);
+   the resource type fits the transformer.  Handler run: it completes without
+   error (announced resources exist, request handlers succeed), announces no
+   resource twice, and announces rid when there is something to tell.
+   With events (not reset) the "served before the next change" restriction is
+   essential: events are relative to the state before the change. *)
+Theorem handler_step_coherent : forall {St C Q} (qs : qstore St C Q) (h : qhandler C Q) (rid cq : bytes) (q : Q),
+  sub_query h rid cq = Some q ->
+  forall s s' c l l' evs reset,
+  qs_query qs s q = Some l -> qs_query qs s' q = Some l' ->
+  qs_events qs c q = Some (evs, reset) ->
+  (reset = false -> raw_apply evs l = Some l' /\ (forall f, h_trans h = TrModel f -> raw_nodup evs l)) ->
+  (evs <> [] -> type_fits h) ->
+  snd (handle_change qs h c) = HOk ->
+  NoDup (announced h c) ->
+  ((reset = true \/ evs <> []) -> In rid (announced h c)) ->
+  view_equiv (client_step qs h s' c rid cq (view_of_get (get_resource qs h s rid cq)))
+             (view_of_get (get_resource qs h s' rid cq)).
+Proof. intros St C Q. exact handler_step_coherent_pf. Qed.
 
 (* ---- non-vacuity ---- *)
 (* byte strings are written as ASCII codes: "k" = [107], "a" = [97], "1" = [49] ... *)
@@ -125,14 +150,44 @@ Example affects_nonvacuous :
   okey_matches (qprefix q) (qfilter q) (opt_key (qidx q) (Some v2)) = false.
 Proof. vm_compute. repeat split. Qed.
 
-(* the handler model on a query resource: told on every announced resource,
-   answered with the fresh result only when affected *)
+(* the handler model: a query collection without transformer and a query model
+   with IDToRIDModelTransformer; two changes, the gateway answered only after
+   both were indexed *)
+Definition ex_q : iquery (bytes * option bytes)%type := IQ ex_ix1 [97] None 0%Z (-1)%Z false.
+Definition ex_ref (id : bytes) : bytes := [105; 46] ++ id.
+Definition ex_h (tr : qtrans) (t : rtype) : qhandler (change (bytes * option bytes)%type) (iquery (bytes * option bytes)%type) :=
+  QH t [116; 46; 113] false (Some (fun _ cq => Some (ex_q, cq))) None ex_q (fun _ => true) tr None.
+Definition ex_cs : list (change (bytes * option bytes)%type) :=
+  [([49], None, Some ([97; 98], None)); ([50], None, Some ([97], None))].
+
 Example handler_nonvacuous :
-  let q := IQ ex_ix1 [97] None 0%Z (-1)%Z false in
-  let h := HC true [116; 46; 113] None (fun _ _ => Some q) in
-  let c : change (bytes * option bytes)%type := ([49], None, Some ([97; 98], None)) in
-  let d' := fst (update_idxs [ex_ix1; ex_ix2] [49] None (Some ([97; 98], None)) [] false) in
-  handler_pubs h c = [PQueryEvent [116; 46; 113]] /\
-  query_response h d' c [116; 46; 113] [120] = QRResult (FOk [[49]]) /\
-  client_after [ex_ix1; ex_ix2] h d' c [116; 46; 113] [120] (FOk []) = FOk [[49]].
+  let h := ex_h TrNone TCollection in
+  let d2 := index_after [ex_ix1; ex_ix2] [] ex_cs in
+  fst (handle_change bs_store h (hd ([], None, None) ex_cs)) = [PQueryEvent [116; 46; 113]] /\
+  fresh_get h [] [116; 46; 113] [120] = Some (TCollection, VColl []) /\
+  fresh_get h d2 [116; 46; 113] [120] = Some (TCollection, VColl [[50]; [49]]) /\
+  fresh_get (ex_h (TrModel ex_ref) TModel) d2 [116; 46; 113] [120]
+    = Some (TModel, VModel [([49], [105; 46; 49]); ([50], [105; 46; 50])]) /\
+  chain_ok [] ex_cs /\
+  client_run [ex_ix1; ex_ix2] h [116; 46; 113] [120] [] ex_cs
+             (fresh_get h [] [116; 46; 113] [120]) (fresh_get h d2 [116; 46; 113] [120]).
+Proof.
+  cbv zeta. repeat split; try (vm_compute; reflexivity).
+  eapply CRcons with (dn := index_after [ex_ix1; ex_ix2] [] ex_cs).
+  - exists [([50], None, Some ([97], None))], []. split; reflexivity.
+  - eapply CRcons with (dn := index_after [ex_ix1; ex_ix2] [] ex_cs).
+    + exists [], []. split; reflexivity.
+    + vm_compute. apply CRnil.
+Qed.
+
+(* a QueryStore answering with events, through IDToRIDCollectionTransformer *)
+Example handler_events_nonvacuous :
+  let qs : qstore (list bytes) unit unit :=
+    QS (fun s _ => Some s) (fun _ _ => Some ([EvRemove [49] 0%Z; EvAdd [51] 1%Z], false)) in
+  let h : qhandler unit unit :=
+    QH TCollection [116] false None None tt (fun _ => true) (TrColl ex_ref) None in
+  raw_apply [EvRemove [49] 0%Z; EvAdd [51] 1%Z] [[49]; [50]] = Some [[50]; [51]] /\
+  fst (handle_change qs h tt) = [PEvent [116] (EvRemove [49] 0%Z); PEvent [116] (EvAdd [105; 46; 51] 1%Z)] /\
+  client_step qs h [[50]; [51]] tt [116] [] (view_of_get (get_resource qs h [[49]; [50]] [116] []))
+    = view_of_get (get_resource qs h [[50]; [51]] [116] []).
 Proof. vm_compute. repeat split. Qed.
